@@ -623,7 +623,7 @@ func guard(fn func() opResult) (r opResult) {
 func TestClientServer(t *testing.T) {
 	f := e2e(t)
 	ctx := context.Background()
-	vk.Check(t, 240, 12000, func(rt *rapid.T, c *vk.Case) {
+	vk.Check(t, 240, 8000, func(rt *rapid.T, c *vk.Case) {
 		steps := rapid.IntRange(6, 16).Draw(rt, "steps")
 		altered, acceptedAltered := 0, 0
 		for q := 0; q < steps; q++ {
@@ -854,10 +854,21 @@ func (f *e2eFixture) checkReturned(rt *rapid.T, c *vk.Case, e vk.Enum, kind, wha
 			ref := en.ReferencedBy
 			spec := database.EncodeReference(ref.Key, schema.KVMetadataFromProto(ref.Metadata), en.Key, ref.AtTx)
 			tx := ref.Tx
-			if !bytes.Equal(ref.Key, wantKey) || !f.hasEntry(tx, spec) {
-				c.Failf(rt, nil, "FORGED REFERENCE RETURNED: %s succeeded but reference (key=%q -> %q atTx=%d) is not an entry of tx %d", what, ref.Key, en.Key, ref.AtTx, tx)
-			}
 			e.Label("returned-reference")
+			if bytes.Equal(ref.Key, wantKey) && f.hasEntry(tx, spec) {
+				return
+			}
+			// only the returned label (the client verifies the REQUESTED key and never looks at ReferencedBy.Key)?
+			fixed := database.EncodeReference(wantKey, schema.KVMetadataFromProto(ref.Metadata), en.Key, ref.AtTx)
+			if f.hasEntry(tx, fixed) {
+				if !vk.Excluded(kGetKey) {
+					c.Failf(rt, nil, "ALTERED REFERENCE RETURNED: %s succeeded; returned ReferencedBy.Key=%q but the verified reference entry is key=%q", what, ref.Key, wantKey)
+				}
+				vk.CountExcluded(kGetKey)
+				e.Label("returned-altered-key-or-tx(K01d)")
+				return
+			}
+			c.Failf(rt, nil, "FORGED REFERENCE RETURNED: %s succeeded but reference (key=%q -> %q atTx=%d) is not an entry of tx %d", what, ref.Key, en.Key, ref.AtTx, tx)
 			return
 		}
 		spec := database.EncodeEntrySpec(en.Key, schema.KVMetadataFromProto(en.Metadata), en.Value)
